@@ -111,12 +111,22 @@ def run(tier, seed):
                                       "accepted writes not on the device 2.5 s later while another key's retirement was waiting for a reader",
                                       inv=("ResultsMatch",))
     viol = viol + _pv
+    # handshake of the sharded write-behind (shard queues, workers, coordinator, force_flush, close): the design model
+    # Coord.tla (every interleaving, switch mutations must fail) and recorded executions with several shards / workers /
+    # client threads judged by Coord.tla's own formulas (TraceCoord.tla: DrainAll, TickHonest, NoLag, NothingLost)
+    import coordengine as _co
+    _cv, _ccov = _co.part(PROP, tier, rng, fxv, rd, design=True)
+    viol = viol + _cv
+    cov["coord"] = _ccov
     return {"level": "model_checking", "coverage": cov, "violations": viol,
             "assumptions": ["wall-clock bound of 3 s against a documented 100 ms interval (30x margin)",
                             "shard/worker count controlled through sched_setaffinity"]}
 
 
 def replay(path):
+    import coordengine as _co
+    if _co.is_coord(path):
+        return _co.replay_main(PROP, path)
     import seqengine as _sq
     if _sq.is_story(path):
         return _sq.replay_story(PROP, path)
